@@ -418,7 +418,32 @@ def _e2e_case(seed):
     strategy = rng.choice(["none", "default_pacbio", "conservative_ont", "default_ont", "all", "assembly"])
     params = H.make_params(strategy)
     isoforms = H.make_gene(rng)
-    if rng.random() < .2:
+    rng3 = random.Random(seed * 131 + 17)
+    if rng3.random() < .08:
+        # a read that is ambiguous between an isoform and the same isoform with 1-3 further upstream exons (the two number their introns
+        # differently) and that skips an annotated micro-exon of 13-25 bp: the correction must use the events of the isoform whose
+        # introns it inserts (own generator: earlier seeds keep their cases)
+        k = rng3.randint(7, 9)
+        q, pool = 1000, []
+        for _ in range(k):
+            a = q + rng3.randint(300, 900)
+            b = a + rng3.randint(60, 260)
+            pool.append((a, b))
+            q = b
+        j = rng3.randint(4, k - 3)
+        pool[j] = (pool[j][0], pool[j][0] + rng3.randint(12, 24))
+        strand = rng3.choice("+-")
+        up = rng3.randint(1, 3)
+        isoforms = [("T1", strand, pool[up:]), ("T2", strand, list(pool))]
+        if rng3.random() < .5:
+            isoforms = [("T1", strand, list(pool)), ("T2", strand, pool[up:])]
+        read = [e for i, e in enumerate(pool) if i >= up and i != j]
+        if rng3.random() < .3:
+            read = read[:j - up + rng3.randint(1, 2)]   # the read ends soon after the skipped exon
+        read[0] = (read[0][0] + rng3.randint(5, 30), read[0][1])
+        kind, tid = "ambiguous_skipped_micro_exon", "T1/T2"
+        gi = H.gene_info_of(isoforms, params.delta)
+    elif rng.random() < .2:
         # an isoform with an annotated micro-intron (5-40 bp), and reads aligned straight through it - as an inner block, or as a short
         # first / last block that the assigner calls a fake terminal exon
         tid, strand, exons = isoforms[0]
@@ -503,7 +528,7 @@ def replay_e2e(d):
     return (not p), "seed %s %s: %s" % (d["inputs"]["seed"], desc, p or "valid")
 
 
-@bounded("C14.corrected_end_to_end", ["C14"], shards=8, note="reads derived from annotated isoforms by 11 kinds of perturbation (truncation, jitter, "
+@bounded("C14.corrected_end_to_end", ["C14"], shards=8, note="reads derived from annotated isoforms by 12 kinds of perturbation (reads ambiguous between two isoforms that number their introns differently and skipping a micro-exon, truncation, jitter, "
          "terminal exons misplaced into the neighbouring intron on either or both sides, skipped exon, fake terminal micro-exon, retention, "
          "intron shift, novel exon; plus reads running through an annotated micro-intron as an inner or as a short terminal block) go through the real AlignmentInfo -> profiles -> LongReadAssigner -> ExonCorrector under all six "
          "strategies: corrected blocks must be positive, ascending, non-overlapping; strategy none must leave the alignment unchanged; "
